@@ -34,6 +34,9 @@ CHECKS['C12'] = dict(engine='S+M', tech=S_TECH,
 CHECKS['C04'] = dict(engine='S', tech='symbolic execution of the real transcript code on an interned absorb-log model of merlin; two-copy injectivity queries decided by z3',
     text='bounded symbolic verification under the random-oracle abstraction: every datum the verifier absorbs is made a free symbol (caller context, free generators H/G_k, commitments, promises, A, L_j, R_j, A1, B); for every challenge and every datum that precedes it z3 shows that equal hash inputs force the datum equal; prover and verifier reach the same interned log; integer fields are absorbed as LE64',
     note='A1 (a challenge "changes" iff its hash input changes), A3, A5 (merlin frames messages by label and length)', ref='§5 C04')
+CHECKS['C13'] = dict(engine='S', tech=S_TECH + ' (random-oracle model: nonces are oracle symbols named by their recorded derivation)',
+    text='bounded symbolic verification in the random-oracle model: the blinding coordinates of every prover message are read off the linear forms of the proof points produced by the real prover; each is shown to be exactly one oracle output (transcript RNG state that absorbed the external stream, or Blake2b(00|seed|j|k, persona=label) with a seed), pairwise distinct, non-zero on the path; the two final masking scalars are RNG outputs also with a seed; two runs with different external streams share none',
+    note='A1 (freshness/unpredictability = distinct oracle inputs), A2, A4, A5', ref='§5 C13')
 NA = {
 }
 def main():
